@@ -678,6 +678,22 @@ let run_case line =
         | _ -> failwith "crw op" in
       let show l = if l = [] then "-" else String.concat "." (List.map (fun n -> string_of_int (int_of_nat n)) l) in
       String.concat " " (List.map show (x_crw_run (List.map op_of ops)))
+  | "sqf" :: ks ->
+      (* SeqFuture::poll with the body generated from the source, on scripted sub-futures *)
+      let ks = List.map (fun x -> nat_of_int (ios x)) ks in
+      let total = sum_list ks in
+      let (st, rdy) = sq_polls (S total) seqfut_gen ks sq_init in
+      let (_, early) = sq_polls total seqfut_gen ks sq_init in
+      Printf.sprintf "%d %d %s %d %d" (if rdy then 1 else 0) (if early then 1 else 0)
+        (String.concat "." (List.map ns st.qtrace)) (if st.qbad then 1 else 0) (if st.qoob then 1 else 0)
+  | "seqfut" :: _ ->
+      (* search: the first list of sub-futures (1..4 futures, 0..2 Pending answers each) on which the generated
+         body violates the specification *)
+      let rec lists n = if n = 0 then [[]] else List.concat_map (fun l -> [0 :: l; 1 :: l; 2 :: l]) (lists (n - 1)) in
+      let all = List.concat_map lists [1; 2; 3; 4] in
+      (match List.find_opt (fun ks -> not (sq_check seqfut_gen (List.map nat_of_int ks))) all with
+       | Some ks -> "FOUND " ^ String.concat " " (List.map string_of_int ks)
+       | None -> "NONE " ^ string_of_int (List.length all))
   | "sim" :: ws -> run_sim ws
   | "conf" :: ws -> run_conf ws
   | "ebuf" :: cap :: o :: ops ->
